@@ -203,6 +203,20 @@ def run(res, tier, seed, shard, nshards):
             for ip in sorted(cands):
                 decide(ip_str(ip), rng.random() < 0.5, [block], f"cidr/{p}", rule="cidr", prefix=p)
                 decide(ip_str(ip), False, ["other.test", block, ".a"], f"cidr-in-list/{p}", rule="cidr", prefix=p)
+        # several blocks in one list that overlap, nest or share their network address (a wide one and a narrow one, either order,
+        # the same block twice): a target is exempt when any of them contains it
+        for q in sorted({0, 8, 16, 24, 32, (p + 7) % 33, (p * 5) % 33} - {p}):
+            wide, narrow = min(p, q), max(p, q)
+            wmask = (1 << (32 - wide)) - 1
+            nmask = (1 << (32 - narrow)) - 1
+            base = rng.getrandbits(32) & ~wmask & 0xFFFFFFFF
+            b_wide, b_narrow = f"{ip_str(base)}/{wide}", f"{ip_str(base)}/{narrow}"
+            in_narrow = base | (rng.getrandbits(32) & nmask)
+            in_wide_only = base | (rng.getrandbits(32) & wmask) | (1 << (32 - narrow) if narrow > wide and narrow <= 32 and (1 << (32 - narrow)) & wmask else 0)
+            for lst in ([b_wide, b_narrow], [b_narrow, b_wide], [b_wide, b_wide], [b_narrow, "other.test", b_wide, b_narrow]):
+                for ip in (in_narrow, in_wide_only, base, base | wmask):
+                    decide(ip_str(ip), rng.random() < 0.5, lst, f"cidr-overlapping/{wide}+{narrow}", rule="cidr-overlap", prefix=p)
+                    res.count("lists_with_overlapping_blocks")
         res.count(f"prefix_lengths_seen")
         # entries with a slash that are no IPv4 block (IPv6 blocks, names, out-of-range or missing prefix lengths) match nothing
         # and hide nothing: a valid block before or after them still decides
@@ -290,6 +304,8 @@ def run(res, tier, seed, shard, nshards):
                  # credentials whose base64 form uses the characters + and / (and padding of every length)
                  ("svc", "pass?"), ("a", "x>y?z~"), ("~~~", ">>>"), ("k?", "?>"), ("ab", "~"),
                  ("svc+ws", "Tr1+x+9"), ("a+b", "c d+e"), ("u!$'()*,;=", "p+%2B"),
+                 # blanks and tabs at the ends are part of the credentials (RFC 7617 allows any character but CTLs in a password)
+                 ("alice", "s3cret "), (" bob", "pw"), ("carol", "tab\t"), ("dave", " both "), ("  ", "  "),
                  ("".join(rng.choice("abcXYZ019?>~<|}{") for _ in range(rng.randrange(1, 9))), "".join(rng.choice("abcXYZ019?>~<|}{") for _ in range(rng.randrange(1, 12))))]
         idx = 0
         for reply in replies:
